@@ -305,6 +305,28 @@ META7 = {
 }
 
 
+META8 = {
+    "C02": dict(file="bioscrape/types.pyx (Model.create_rule gives valueless parameters of a rule the value 0)", needs="an undeclared name on a rule's right-hand side", caught_by=["C02"], first_run="caught"),
+    "C03": dict(file="bioscrape/types.pyx (Model._initialize sets the initialised flag before the checks)", needs="a model object that survives the first refusal (deferred initialisation), then a second attempt", caught_by=["C03"],
+                first_run="missed: one attempt per model", strengthened="the same model object is refused on every later attempt (interface, initialisation, simulation)"),
+    "C07": dict(file="bioscrape/types.pyx (AdditiveAssignmentRule accumulates in place)", needs="an additive rule whose target is one of its sources", caught_by=["C07"],
+                first_run="missed by C07 (the same place as r7/C09, which C09 reports)", strengthened="the accumulator rule set is part of C07's first-row rule passes"),
+    "C09": dict(file="bioscrape/types.pyx (Model.__init__ passes input_printout positionally into create_rule's frequency slot)", needs="a rule given to the constructor as a 2-tuple", caught_by=["C09"], first_run="caught"),
+    "C10": dict(file="bioscrape/simulator.pyx (ModelCSimInterface.compute_delay returns fabs of the delay)", needs="a Gaussian (or fixed) delay that is negative", caught_by=["C10"],
+                first_run="counterexample found, not replayed: exit 2", strengthened="replay: Gaussian(-50, 1), fixed -2 and Gaussian(0, 1) delays deliver at the firing time"),
+    "C12": dict(file="bioscrape/sbmlutil.py (import_sbml_species: `sid in (\"volume\" \"t\")` is a substring test)", needs="a species called u, v, m, e, l, o, me, vol, ...", caught_by=["C12"],
+                first_run="missed: fixed species names", strengthened="programs over short species names"),
+    "C13": dict(file="bioscrape/types.pyx (GeneralPropensity.initialize caches parsed terms under id(params2index))", needs="many imports in one process; the address of a released dictionary is reused", caught_by=["C13"],
+                first_run="missed (not deterministic)", strengthened="a change of module-level containers during an import is recorded as a suspicion; the replay then reads 240 documents in one process and checks each against its own text (a suspicion that does not reproduce is noted, not reported)"),
+    "C18": dict(file="bioscrape/types.pyx (sympify with _clash2 instead of _clash1)", needs="a general rate over a species or parameter called E, I, N, ...", caught_by=["C18"],
+                first_run="missed by C18 (the same place as r3/C04)", strengthened="third real model over species E and parameters N, I; a legal model that cannot be built is a failure"),
+    "C19": dict(file="bioscrape/simulator.pyx (GeneralVolumeSplitter.py_set_partitioning honours a 'binomial' key without removing those species from the default set)", needs="options that name species under 'binomial'", caught_by=["C19"],
+                first_run="missed: binomial species were left implicit", strengthened="general splitter with the binomial species named explicitly"),
+    "C20": dict(file="bioscrape/simulator.pyx (ArrayDelayQueue.__init__ snaps the first slot to a multiple of dt)", needs="a queue constructed at a time that is not a multiple of dt", caught_by=["C20"],
+                first_run="missed: queues were made by setup_queue (time 0)", strengthened="the constructor with an arbitrary current time"),
+}
+
+
 def main():
     results = {}
     rp = "/verif/seeded/results.json"
@@ -323,6 +345,8 @@ def main():
         rounds.append((META6, "/tmp/seed6_out", os.path.join(DST, "r6"), ("patch.diff", "demo.py", "notes.md")))
     if os.path.isdir("/tmp/seed7_out") or os.path.isdir(os.path.join(DST, "r7")):
         rounds.append((META7, "/tmp/seed7_out", os.path.join(DST, "r7"), ("patch.diff", "demo.py", "notes.md")))
+    if os.path.isdir("/tmp/seed8_out") or os.path.isdir(os.path.join(DST, "r8")):
+        rounds.append((META8, "/tmp/seed8_out", os.path.join(DST, "r8"), ("patch.diff", "demo.py", "notes.md")))
     for table, src_root, dst_root, files in rounds:
       for pid, m in sorted(table.items()):
         src = os.path.join(src_root, pid)
@@ -331,7 +355,7 @@ def main():
         for fn in files:
             if os.path.exists(os.path.join(src, fn)):
                 shutil.copy(os.path.join(src, fn), os.path.join(dst, fn))
-        key = pid if table is META else ("r2/" if table is META2 else "r3/" if table is META3 else "r4/" if table is META4 else "r5/" if table is META5 else "r6/" if table is META6 else "r7/") + pid
+        key = pid if table is META else ("r2/" if table is META2 else "r3/" if table is META3 else "r4/" if table is META4 else "r5/" if table is META5 else "r6/" if table is META6 else "r7/" if table is META7 else "r8/") + pid
         meta = dict(property=pid, changed=m["file"], needs_to_manifest=m["needs"], reported_by_checks=m["caught_by"],
                     first_run=m["first_run"], strengthened=m.get("strengthened", ""),
                     confirmed=["tools/try_seed.sh: (1) `git diff` of the sub-agent's worktree equals patch.diff; (2) the pinned suite run in that worktree: 54 passed; "
